@@ -11,6 +11,7 @@ import (
 
 	"github.com/google/uuid"
 	"github.com/tokenized/pkg/bitcoin"
+	"github.com/tokenized/pkg/merkle_proof"
 	"github.com/tokenized/pkg/wire"
 )
 
@@ -158,4 +159,29 @@ func (n *FakeNode) EndHandler() {
 	n.finished = true
 	n.closeFeed = nil
 	n.mu.Unlock()
+}
+
+func (p *quietProcessor) call() {
+	if p.onCall != nil {
+		p.onCall()
+	}
+}
+func (p *quietProcessor) ProcessTx(ctx context.Context, tx *wire.MsgTx) (bool, error) {
+	p.call()
+	return tx.TxHash()[0]&1 == 0, nil
+}
+func (p *quietProcessor) CancelTx(ctx context.Context, txid bitcoin.Hash32) error { return nil }
+func (p *quietProcessor) AddTxConflict(ctx context.Context, txid, c bitcoin.Hash32) error {
+	return nil
+}
+func (p *quietProcessor) ConfirmTx(ctx context.Context, txid bitcoin.Hash32, h int, proof *merkle_proof.MerkleProof) error {
+	p.call()
+	return nil
+}
+func (p *quietProcessor) UpdateTxChainDepth(ctx context.Context, txid bitcoin.Hash32, d uint32) error {
+	return nil
+}
+func (p *quietProcessor) ProcessCoinbaseTx(ctx context.Context, b bitcoin.Hash32, tx *wire.MsgTx) error {
+	p.call()
+	return nil
 }
